@@ -1389,6 +1389,12 @@ class Interp:
                     res.append((b[1][i[1]], s2))
                 elif b[0] == "dict" and i[0] == "const" and all(k is not None and k[0] == "const" for k, _ in b[1]) and any(k == i for k, _ in b[1]):
                     res.append(([v for k, v in b[1] if k == i][-1], s2))
+                elif isinstance(e.ctx, ast.Load) and b[0] in ("tuple", "list") and i[0] != "const" and i[0] != "slice" and 2 <= len(b[1]) <= 4 and not any(y[0] == "star" for y in b[1]) \
+                        and all(y[0] in ("func", "cls", "tuple", "lambda", "partial", "closure") for y in b[1]):
+                    # a small literal table of functions (or rows of functions) indexed by a run-time value - `_RENDERERS[bool(as_bytes)]`:
+                    # SOME row is selected; every row is followed on a path of its own that remembers which one
+                    for k_, row in enumerate(b[1]):
+                        res.append((row, s2.with_fact(("cmp", "Eq", i, ("const", k_)), True)))
                 elif isinstance(e.ctx, ast.Load) and i[0] == "const" and self._eafp_lookup(e):
                     # EAFP: `try: v = m[K] except KeyError: A else: B` is `if K in m: v = m[K]; B else: A` - the lookup forks on membership
                     memb = ("cmp", "In", i, b)
